@@ -17,6 +17,14 @@ WireOp(tok) ==
                          description |-> "descr", args |-> <<>>]
     [] tok = "b"     -> [op |-> "DFG", signature |-> FnT(Row2, Row2)]
     [] tok = "const" -> [op |-> "Const", v |-> TrueV]
+    [] tok = "call"  -> [op |-> "Call",                       \* row-polymorphic callee: the instantiation has another arity than the body
+                         func_sig |-> [params |-> <<[tp |-> "List", param |-> [tp |-> "Type", b |-> "A"]]>>,
+                                       body |-> FnT(<<[t |-> "R", i |-> 0, b |-> "A"]>>, <<[t |-> "R", i |-> 0, b |-> "A"]>>)],
+                         type_args |-> <<[tya |-> "Sequence", elems |-> <<TyArg(BoolT), TyArg(BoolT)>>]>>,
+                         instantiation |-> FnT(Row2, Row2)]
+    [] tok = "loadf" -> [op |-> "LoadFunction", func_sig |-> [params |-> <<>>, body |-> FnT(Row2, <<>>)], type_args |-> <<>>,
+                         instantiation |-> FnT(Row2, <<>>)]
+    [] tok = "loadc" -> [op |-> "LoadConstant", datatype |-> BoolT]
 
 (* the domain of C03's port-addressing clause and of C02: links attach only to ports the operations have *)
 OffOK(tok, o, dir) == IF o = -1 THEN HasOrder(WireOp(tok), dir)
